@@ -10,6 +10,7 @@ Only theorems here; lemmas are in Proofs/Mont*.lean, Proofs/Asm*.lean.
 import DosModel.Proofs.AsmField
 import DosModel.Proofs.MontLimbs
 import DosModel.Proofs.MontRedc
+import DosModel.Proofs.MontInvert
 import DosModel.Model.AsmBn256
 import DosModel.Model.Bn256Field
 
@@ -85,6 +86,17 @@ theorem add_sub_neg_reduced (a b : Nat) (ha : a < Bn256.p) (hb : b < Bn256.p) :
   ⟨addM_correct _ a b consts_p2_is_P.2.1 ha hb, subM_correct _ a b consts_p2_is_P.2.1 ha hb,
    negM_correct _ a consts_p2_is_P.2.1 ha⟩
 
+/-- **invert_correct**: gfP.Invert (square-and-multiply over the `bits` table from rN1, fixed up by r3)
+returns a reduced value whose decoding is the (p−2)-th power of the decoded argument — for every reduced
+argument, no primality used -/
+theorem invert_correct (f : GFp) (hf : f.v < Bn256.p) :
+    (GFp.invert f).v < Bn256.p ∧
+    (GFp.invert f).v * GFp.rN1.v ≡ (f.v * GFp.rN1.v) ^ (Bn256.p - 2) [MOD Bn256.p] := invert_pow f hf
+
+/-- … which is the inverse when p is prime (assumption, see the manifest) -/
+theorem invert_is_inverse_of_prime (hprime : Nat.Prime Bn256.p) (f : GFp) (hf : f.v < Bn256.p) (hf0 : f.v ≠ 0) :
+    ((GFp.invert f).v * GFp.rN1.v) * (f.v * GFp.rN1.v) ≡ 1 [MOD Bn256.p] := invert_inverse hprime f hf hf0
+
 /-! ## 3. the interpreted assembly (regenerated listing of gfp.s) -/
 
 /-- **gfpAdd**: for EVERY machine state (registers, flags, memory, aliasing of c/a/b) whose
@@ -150,6 +162,7 @@ example : addM Bn256.p (Bn256.p - 1) (Bn256.p - 1) = Bn256.p - 2 := by decide
 example : subM Bn256.p 0 1 = Bn256.p - 1 := by decide
 example : negM Bn256.p 0 = 0 := by decide
 example : mulM Bn256.p Bn256.np (R - 1) GFp.r2.v < Bn256.p := by decide
+example : GFp.invert (GFp.newGFp 2) * GFp.newGFp 2 = GFp.newGFp 1 := by decide +kernel
 example : runFn Gen.Bn256Asm.gfpMul true id 1 GFp.r2.v = .ok (R % Bn256.p) := by decide +kernel
 example : runFn Gen.Bn256Asm.gfpMul false (fun _ => .a) (R - 1) 0 = .ok (mulM Bn256.p Bn256.np (R - 1) (R - 1)) := by
   decide +kernel
